@@ -7,7 +7,7 @@ PID = 'C05'
 RULE = ('roll(w, s, inner) for every 1 <= w,s <= 8 (thorough: 12) x stream lengths 0..40 (thorough 80), '
         'inner pipeline to_list / count(reduce) / last / identity / sum, at top level, under group_by with interleaved '
         'keys, and nested in roll/split; plus random (w, s, n). non-trivial = at least one window wraps the ring '
-        '(n > density * s) or >= 2 windows open at completion; distinct = distinct case JSON; a scale family: windows and strides of 50..1001 (window = k*stride + small remainder) and one key with more than 65536 items (oracle only above 450 events)')
+        '(n > density * s) or >= 2 windows open at completion; distinct = distinct case JSON; a scale family: windows and strides of 50..1001 (window = k*stride + small remainder) and one key with more than 65536 items (oracle only above 300 events)')
 TRUSTED = ['modelled not verified: RxPY synchronous delivery; typed arrays of MemoryStore (tied by C14)']
 ASSUMPTIONS = ['window >= 1, stride >= 1 (rs.data.roll raises ValueError otherwise)']
 SHARD = 150
